@@ -913,6 +913,8 @@ def _positive_pieces(ctx: Ctx, fi: FuncInfo, items: str) -> None:
     from sa.lin import entails
     n_sites = 0
 
+    flagged = [False]
+
     def walk(stmts: list[ast.stmt], facts: list[Any],
              alias: set[str]) -> None:
         nonlocal n_sites
@@ -940,14 +942,26 @@ def _positive_pieces(ctx: Ctx, fi: FuncInfo, items: str) -> None:
                 ok = g is not None and entails(facts, g - 1)
                 ctx.ob("D17.5", fi, s, ok,
                        f"`{ast.unparse(s)[:70]}` writes a size >= 1 (linear "
-                       "entailment from the guards of the cut)" if ok else
-                       f"`{ast.unparse(s)[:70]}` can write a size < 1: the "
-                       "decoded instance would contain an empty item and be "
-                       "rejected", construct=f"piece "
+                       "entailment from the guards of the cut)" if ok else (
+                           f"`{ast.unparse(s)[:70]}`: the cut is guarded by "
+                           "a flag, the comparisons that bound the size are "
+                           "not recognised" if flagged[0] else
+                           f"`{ast.unparse(s)[:70]}` can write a size < 1: "
+                           "the decoded instance would contain an empty "
+                           "item and be rejected"), construct=f"piece "
                        f"{ast.unparse(s.value)[:40]}")
             if isinstance(s, ast.If):
+                was = flagged[0]
+                # a test of a boolean local carries no comparison
+                t_ = s.test
+                while isinstance(t_, ast.UnaryOp) and isinstance(
+                        t_.op, ast.Not):
+                    t_ = t_.operand
+                if isinstance(t_, ast.Name):
+                    flagged[0] = True
                 walk(s.body, facts + _lin_cond(s.test, True), alias)
                 walk(s.orelse, facts + _lin_cond(s.test, False), alias)
+                flagged[0] = was
             elif isinstance(s, (ast.For, ast.While)):
                 walk(s.body, list(facts), alias)
     walk(func_body(fi), [], set())
@@ -1622,6 +1636,12 @@ def _search_protocol(ctx: Ctx, fi: FuncInfo, items: str = "items") -> None:
                     f"the bounded search `while {ast.unparse(w.test)}` does "
                     f"not advance `{v}` when the scan has wrapped around: "
                     "it may never end")
+    uniq = list(dict.fromkeys(problems))
+    if len(uniq) >= 3:
+        # most recognisers miss: the search is written differently, not
+        # wrong in one place - nothing is claimed
+        problems = ["the way the search for a cuttable item is written is "
+                    "not recognised (" + "; ".join(uniq)[:400] + ")"]
     ctx.ob("D17.8", fi, fi.node, not problems,
            "the cutting dimension stays in {0, 1}, the search direction in "
            "{-1, +1}, the search steps to (sel_i + sel_dir) mod n and every "
